@@ -35,6 +35,10 @@ use std::collections::{BTreeMap, BTreeSet};
 
 /// the source tree this binary was built against
 pub fn repo_dir() -> String {
+    // development aid (c20.rs reports `C20:harness:partial-run` whenever it is set): scan another tree
+    if let Ok(r) = std::env::var("C20_SRC_ROOT") {
+        return r;
+    }
     const MANIFEST: &str = include_str!("../Cargo.toml");
     for line in MANIFEST.lines() {
         if line.trim_start().starts_with("redis-sim") {
